@@ -116,6 +116,23 @@ def run(ctx):
         ctx.check(ok, "C05-b", b.key, "converts its argument", "ConnectionInner::convert_to_connection_error does not convert its own argument", "")
         st_ = [s for bb, i, s in b.all_stmts() if s.s == "assign" and s.place.fields()[-1:] == ["handled_connection_error"]]
         ctx.check(len(st_) == 1, "C05-c", b.key, "records the handled error", "handled_connection_error is assigned %d times" % len(st_), "")
+    # the converter keeps the error's identity: Internal -> Local{Application{same code, same reason}}, Timeout -> Timeout, else Remote(same error)
+    cvb = ru.need(ctx, "C05-b", conv_free)
+    if cvb:
+        rows = {}
+        for p in [p for p in ru.all_paths(ctx, "C05-b", cvb) if p.end == "return"]:
+            labs = [t[2] for t in p.tests if t[3][0] == "discr"]
+            rows["/".join(labs)] = p
+        pin = [p for k, p in rows.items() if k.startswith("Internal")]
+        ok = len(pin) == 1 and pin[0].ret_shape() == "ConnectionError::Local" and pa.vfmt(pin[0].ret) == "Local(Application(param_1<Internal>.0.code, param_1<Internal>.0.message))"
+        ctx.check(ok, "C05-b", conv_free, "h3-detected error -> Local{Application{that error's code and reason}}",
+                  "an internal error is reported as %s; every handle must report exactly the code the connection was closed with"
+                  % [pa.vfmt(p.ret)[:100] for p in pin], "")
+        pt = [p for k, p in rows.items() if k.endswith("Timeout") and "|" not in k.split("/")[-1]]
+        ctx.check(len(pt) == 1 and pt[0].ret_shape() == "ConnectionError::Timeout", "C05-b", conv_free, "transport timeout -> Timeout", "rows: %s" % sorted(rows), "")
+        pr_ = [p for k, p in rows.items() if k.startswith("Quic") and p not in pt]
+        ok = bool(pr_) and all(p.ret_shape() == "ConnectionError::Remote" and pa.vfmt(p.ret) == "Remote(param_1<Quic>.0)" for p in pr_)
+        ctx.check(ok, "C05-b", conv_free, "other transport errors -> Remote(the same error)", "rows: %s" % {k: pa.vfmt(p.ret)[:60] for k, p in rows.items()}, "")
     reporters = [CI + "handle_connection_error", CI + "poll_connection_error", CEC + "CloseStream::handle_connection_error_on_stream",
                  CEC + "CloseStream::handle_quic_stream_error"]
     for key in reporters:
